@@ -1,16 +1,19 @@
 ------------------------------ MODULE MC_RngMT ------------------------------
-(* Model-checking instances of sm/RngMT.tla (C18).
-     MC_RngMT_2t.cfg     2 threads x <= 4 calls, all six calls          exhaustive
-     MC_RngMT_3t.cfg     3 threads x <= 2 calls                          exhaustive
+(* Model-checking instances of sm/RngMT.tla (C18).  Constants are given by the cfg files; checks/C18.py
+   rewrites `IsValidSync = FALSE` to TRUE when the tree's rngIsValid reads the trigger first (probe).
+     MC_RngMT_2t.cfg     2 threads x <= 5 calls, all six calls          exhaustive  (324 k states, 6 s)
+     MC_RngMT_3t.cfg     3 threads x <= 3 calls                          exhaustive  (23 k states, 2 s)
+     MC_RngMT_2tL.cfg    2 threads x <= 6 calls          thorough        exhaustive  (4.6 M states, 40 s)
+     MC_RngMT_3tL.cfg    3 threads x <= 4 calls          thorough        exhaustive  (3.7 M states, 48 s)
      MC_RngMT_live.cfg   2 threads x <= 3 calls, FairSpec => Returns     exhaustive (liveness)
      MC_RngMT_fail.cfg   2 threads x <= 3 calls, rngInit may fail        exhaustive
      MC_RngMT_race.cfg   PublishAtomic = FALSE: TLC must report NoRace  (the model-level
                          counterexample of the plain store `*once = 1` in mtCallOnce)
-     MC_RngMT_unref.cfg  rngIsValid without a reference: NoRace on `inited` (second finding);
-                         NoRaceButInited holds
-     MC_RngMT_sim.cfg    4..16 threads, -simulate (sampled)              *)
+     MC_RngMT_unref.cfg  rngIsValid without a reference: NoRace fails on `inited` (second finding)
+                         unless IsValidSync; MC_RngMT_unref2.cfg: NoRaceButInited and all the rest hold
+   4..16 threads are sampled: mc/MC_RngMTGen.tla (-simulate) checks the invariants on every simulated
+   behaviour and emits it as a schedule for the replay on the real code.
+   (Symmetry over thread identities is used for the safety runs only.) *)
 EXTENDS RngMT
 Sym == Permutations(Threads)
-SimThreads == 1..16
-\* simulation: the number of threads is drawn per behaviour
 =============================================================================
